@@ -355,6 +355,8 @@ def main(chk):
     c01.rule_cell_size(chk)
     # tree searches prune with the same bound the other algorithms' stencils guarantee (rule shared with C01)
     c01.rule_octree(chk)
+    c01.rule_level_stencil(chk)
+    c01.rule_cell_counts(chk)
     # threads never share scratch storage: per-thread slices of the pair vectors are disjoint (rule shared with C02)
     spec2 = importlib.util.spec_from_file_location('c02mod', os.path.join(os.path.dirname(os.path.abspath(__file__)), 'c02.py'))
     c02 = importlib.util.module_from_spec(spec2)
